@@ -157,6 +157,31 @@ def rand_term(rng, depth, must_consume=False):
     return nd("char", ["a"])
 
 
+NT_PREFIX = ["name=", "k=", "a b:"]
+NT_REST = ["value", "v", "value x", "value\n  more", "vx", "xvalue", "val!", "x"]
+NT_F = [nd("char", ["x"]), nd("char", ["v"]), nd("lit", list("va")), nd("lit", list("vx")), nd("inset", list("xyz")),
+        nd("seq", ts=[nd("char", ["v"]), nd("char", ["x"])]), nd("seq", ts=[nd("lit", list("value")), nd("char", ["!"])]),
+        nd("str", ["x"], n=1), nd("str", list("valu"), n=6), nd("kl", ts=[nd("char", ["v"]), nd("char", ["z"])]),
+        nd("fb", ts=[nd("char", ["v"]), nd("char", ["q"])]), nd("nfb", ts=[nd("char", ["v"]), nd("char", ["a"])]),
+        nd("lit", list("VALUE")), nd("map", n=3, ts=[nd("str", list("bv"), n=1)])]
+
+
+def notrace_cases(rng, n):
+    """prefix x failing-or-not alternative f x rest x form; all fixed combinations first, then seeded ones
+    with random f (the reference decides whether f fails; only then the law applies)."""
+    out = [dict(form=form, p=list(p), f=f, w=list(p + r))
+           for form in ("choice", "opt", "many") for p in NT_PREFIX for f in NT_F for r in NT_REST
+           if form != "many" or consumes(f)]
+    rng.shuffle(out)
+    out = out[:n]
+    while len(out) < n:
+        f = rand_term(rng, rng.choice([0, 1, 2]), True)
+        w = rng.choice(NT_PREFIX)
+        out.append(dict(form=rng.choice(["choice", "opt", "many"]), p=list(w),
+                        f=f, w=list(w + "".join(rng.choice("abvx! ") for _ in range(rng.randint(1, 6))).lstrip() + "v")))
+    return out
+
+
 def rand_inputs(rng, n, maxlen):
     base = [[]] + [[c] for c in RALPHA] + [[c, d] for c in "ab" for d in "ab"]
     seen = set(tuple(w) for w in base)
@@ -307,7 +332,7 @@ class Stage(object):
     """Runs groups of driver jobs, validates their traces and keeps only what the verdict and
     the evidence need, so that memory stays bounded by the largest group."""
 
-    MOD = {"peg": "PegTrace", "tag": "TagLangTrace", "json": "JsonDocTrace"}
+    MOD = {"peg": "PegTrace", "tag": "TagLangTrace", "json": "JsonDocTrace", "notrace": "PegTrace"}
 
     def __init__(self):
         self.val = lib.merge_val()
@@ -317,7 +342,7 @@ class Stage(object):
         self.nontrivial = 0
         self.samples = {}
         self.tdrv = 0.0
-        self.tval = dict(peg=0.0, tag=0.0, json=0.0)
+        self.tval = dict(peg=0.0, tag=0.0, json=0.0, notrace=0.0)
         self.by_kind = {}             # top kind of a term -> [successes, failures] observed
         self.keep = {}                # kind -> a one-event trace for the self-test
         self.tag_outcomes = [0, 0]    # tag texts rejected / accepted by the real parser
@@ -354,6 +379,17 @@ class Stage(object):
             ev = byid[bad[0]["id"]]["events"][bad[0]["line"] - 1]
             raise lib.MachineryError("trace validation found a malformed case (%s): %s"
                                      % (bad[0]["clause"], json.dumps(ev)[:1500]))
+        if kind == "notrace":
+            for r in val["rejected"]:
+                ev = byid[r["id"]]["events"][r["line"] - 1]
+                self.rej.append(dict(
+                    clause=r["clause"], size=r.get("size", 0), id=r["id"], line=r["line"],
+                    what="WithIndent(Literal(%r) >> <%s of WithIndent(%s), HangingString>) on %r -> %s, but without the "
+                         "failing alternative -> %s" % ("".join(ev["p"]), ev["form"], term_text(ev["f"]), "".join(ev["w"]),
+                                                        ev["outer"], ev["base"]),
+                    rep=dict(job=dict(id="replay/0", kind="notrace", cases=[dict(form=ev["form"], p=ev["p"], f=ev["f"],
+                                                                                 w=ev["w"])]))))
+            return
         # consistency of the two directions: what TLC emitted and TLC's verdict on the observation
         for t in traces:
             for ln, ev in enumerate(t["events"], 1):
@@ -548,6 +584,10 @@ def run(prop, tier):
         counts["peg_pairs"] += len(items) * len(ws)
     st.run(jobs, acc_expect, rng)
 
+    # -- failed alternatives and the indent stack (WithIndent / HangingString, not modelled by Parse)
+    st.run([dict(id="notrace/%d" % i, kind="notrace", cases=ch)
+            for i, ch in enumerate(lib.chunks(notrace_cases(rng, 600 if quick else 6000), 4)) if ch], {}, rng)
+
     # -- tag expressions
     retab = [[b, t] for b in BODIES for t in UNIVERSE]
     jobs, expect = [], {}
@@ -616,8 +656,9 @@ def run(prop, tier):
 
     stats, val = st.stats, st.val
     print("timing: drivers %.1fs, %s, %s" % (st.tdrv, counts, stats))
-    print("timing: validation %.1fs (%d events, %d JVMs; peg %.1fs, tag %.1fs, json %.1fs)"
-          % (sum(st.tval.values()), val["events"], val["jvms"], st.tval["peg"], st.tval["tag"], st.tval["json"]))
+    print("timing: validation %.1fs (%d events, %d JVMs; peg %.1fs, tag %.1fs, json %.1fs, notrace %.1fs)"
+          % (sum(st.tval.values()), val["events"], val["jvms"], st.tval["peg"], st.tval["tag"], st.tval["json"],
+             st.tval["notrace"]))
     if stats.get("hangs"):
         print("note: %d term runs exceeded the per-term time limit (recorded as position -1); %d terms not run after that"
               % (stats["hangs"], stats.get("terms_not_run_after_hangs", 0)))
@@ -632,6 +673,9 @@ def run(prop, tier):
             vacuous = "terms with top kind %s: %d successes, %d failures observed" % (k, oc[0], oc[1])
     if not vacuous and (st.tag_outcomes[0] < 200 or st.tag_outcomes[1] < 200):
         vacuous = "tag texts: %d rejected and %d accepted by the parser" % tuple(st.tag_outcomes)
+    if not vacuous and stats.get("notrace_base_reads_text", 0) < 50:
+        vacuous = "indent-stack cases: the grammar without the failing alternative read a value in only %d of %d" % (
+            stats.get("notrace_base_reads_text", 0), stats.get("notrace", 0))
     if vacuous and not st.rej:
         raise lib.MachineryError(vacuous)      # with rejections it is a verdict, not vacuity
 
@@ -695,7 +739,7 @@ def replay(prop, path):
     if not job:
         return 0
     out = lib.run_driver("drive_peg.py", dict(jobs=[job]))
-    mod = {"peg": "PegTrace", "tag": "TagLangTrace", "json": "JsonDocTrace"}[job["kind"]]
+    mod = {"peg": "PegTrace", "tag": "TagLangTrace", "json": "JsonDocTrace", "notrace": "PegTrace"}[job["kind"]]
     val = lib.validate_traces(mod, mod + ".cfg", out["traces"], jobs=1)
     for rj in val["rejected"]:
         print("still rejected: clause %s" % rj["clause"])
